@@ -2,6 +2,8 @@
 Attributes::to_writer wrote and finds the source map; (c) blobs built by the independent encoder
 for `vh c14read`; (d) the same blob is what the binary and the XML file store."""
 import hashlib, json, os, random, sys
+import sys as _sys
+_sys.setrecursionlimit(20000)  # trees of the size scenarios are hundreds of levels deep
 
 sys.path.insert(0, os.path.dirname(os.path.dirname(os.path.abspath(__file__))))
 import refattr, refbin, refxml  # noqa: E402
